@@ -408,6 +408,31 @@ class Body:
             self._defs = d
         return self._defs
 
+    @property
+    def mut_borrowed(self):
+        """Named locals whose storage is mutably borrowed directly (`&mut x`, `&mut x.f`, not through a deref):
+        their value changes after initialisation, so they are not replaced by their initialiser."""
+        if not hasattr(self, "_mutb"):
+            mb = set()
+            for blk in self.blocks:
+                if blk.get("cleanup"):
+                    continue
+                for st in blk["stmts"]:
+                    if st["k"] == "assign" and st["r"]["k"] in ("ref", "rawptr") and st["r"].get("m", "mut") == "mut":
+                        p = st["r"]["p"]
+                        if not any(pr["k"] == "deref" for pr in p.get("pr", ())):
+                            mb.add(p["l"])
+            self._mutb = mb
+        return self._mutb
+
+    def init_expr(self, l):
+        """Initialiser of a single-def local even when it is mutably borrowed later."""
+        ds = self.defs.get(l, [])
+        if len(ds) != 1:
+            return ("local", l, self.names.get(l))
+        d = ds[0]
+        return self.rvalue_expr(d[3]) if d[0] == "stmt" else self.call_expr(d[3], d[1])
+
     # ------------------------------------------------------------------ expressions
     def local_expr(self, l, depth=0, stack=()):
         if l == 0:
@@ -418,6 +443,8 @@ class Body:
             # args may be reassigned, rare; treat as arg
             return ("arg", l, self.names.get(l))
         if l in stack or depth > 24:
+            return ("local", l, self.names.get(l))
+        if l in self.names and l in self.mut_borrowed:
             return ("local", l, self.names.get(l))
         ds = self.defs.get(l, [])
         if len(ds) != 1 or self.defs.get((l, "partial")):
